@@ -93,7 +93,8 @@ struct Plain<'a, T: Elem> {
     next: usize,
     end: usize,
     pulled: &'a mut usize,
-    /// which (legal) size hint the iterator reports: 0 = (0, None), 1 = exact, 2 = (0, Some(len)), 3 = (len, None)
+    /// which (legal) size hint the iterator reports: 0 = (0, None), 1 = exact, 2 = (0, Some(len)), 3 = (len, None),
+    /// 4 = (0, Some(len + a few)) — a loose upper bound, as a `filter` adapter reports —, 5 = (len / 2, Some(2 len + 3))
     hint: u8,
     _p: std::marker::PhantomData<T>,
 }
@@ -107,6 +108,8 @@ impl<T: Elem> Iterator for Plain<'_, T> {
             1 => (rem, Some(rem)),
             2 => (0, Some(rem)),
             3 => (rem, None),
+            4 => (0, Some(rem + 1 + self.end % 7)),
+            5 => (rem / 2, Some(rem.saturating_mul(2).saturating_add(3))),
             _ => (0, None),
         }
     }
@@ -375,14 +378,23 @@ fn run_history<T: Elem>(sc: &Sc, obs: &mut Obs) -> Vec<Violation> {
                     let mut pulled = 0usize;
                     let first = serial;
                     serial += *n;
-                    let r = {
+                    let r = if (first / 6) % 4 == 3 {
+                        // the trait's slice form of the same operation
+                        obs.hit("probe.try_extend_from_slice");
+                        pulled = *n;
+                        let items: Vec<T> = (0..*n).map(|i| T::make(first + i)).collect();
+                        st.try_extend_from_slice(&items)
+                    } else {
                         let mut it: Plain<'_, T> = Plain {
                             next: first,
                             end: first + *n,
                             pulled: &mut pulled,
-                            hint: (first % 4) as u8,
+                            hint: (first % 6) as u8,
                             _p: std::marker::PhantomData,
                         };
+                        if it.hint >= 4 {
+                            obs.hit("probe.try_extend-loose-size-hint");
+                        }
                         st.try_extend(&mut it)
                     };
                     let fits = len.checked_add(*n).is_some_and(|s| s <= m.max);
@@ -510,8 +522,10 @@ impl Check for C04 {
             "fault.underflow",
             "probe.bulk-overflow-by-exactly-one",
             "probe.len-plus-size-overflows-usize",
+            "probe.try_extend-loose-size-hint",
             "probe.try_extend-reversed>=2",
             "probe.try_extend-rollback-after-moved-items",
+            "probe.try_extend_from_slice",
             "probe.underflow-by-exactly-one",
         ]
     }
